@@ -30,16 +30,18 @@ RULE = ("Cases: a valid document of a text format (JSON, JSON5, YAML, XML, HTML,
 ASSUMPTIONS = [
     "the independent parsers define 'not syntactically valid': a corruption they still accept is discarded, never blamed on graphtage",
     "HTML is treated as the XML dialect graphtage parses it as (expat is the independent judge)",
-    "--no-status is passed so that progress-bar text on stderr (which also names the files) cannot satisfy the 'names the file' clause",
+    "--no-status (or --quiet) is always passed so that progress-bar text on stderr (which also names the files) cannot satisfy the 'names the file' clause; the logging options --quiet / --log-level CRITICAL / --debug rotate over the cases",
 ]
 MANIFEST_TEXT = ("Fault enumeration: every byte position of several documents per text format is truncated, deleted or "
                  "duplicated (plus generated documents and byte flips in the thorough tier); every corruption that an "
                  "independent parser rejects must produce a clean error exit naming the file, in either file position.")
 MANIFEST_NOTE = "Trusts json, json5, PyYAML (both loaders), expat and plistlib as judges of syntactic validity."
 DESIGN_REF = 'DESIGN.md section 3, C20'
-SHRINK = {'docs': ['doc'], 'enums': {'position': 0}}
+SHRINK = {'docs': ['doc'], 'enums': {'position': 0, 'opts': '--no-status'}}
 
 FORMATS = ['json', 'json5', 'yaml', 'xml', 'html', 'plist']
+# status / logging options the message must survive (each suppresses progress bars, which would also name the files)
+OPTS = ['--no-status', '--no-status', '--quiet', '--no-status --log-level CRITICAL', '--no-status --debug']
 DELIMS = set(b'{}[]:,"<>/=&;\n -')
 UNBALANCE = b'{[<"\'>]}'
 
@@ -160,7 +162,8 @@ def run_job(job, seed, sink):
                 for c in enumerate_corruptions(fmt, doc, ascii_only):
                     for pos in (0, 1):
                         if i % 16 == job['shard']:
-                            sink.fast({'fmt': fmt, 'doc': doc, 'ascii': ascii_only, 'corruption': c, 'position': pos})
+                            sink.fast({'fmt': fmt, 'doc': doc, 'ascii': ascii_only, 'corruption': c, 'position': pos,
+                                       'opts': OPTS[(i // 16) % len(OPTS)]})
                         i += 1
         return
     docs = []
@@ -172,7 +175,7 @@ def run_job(job, seed, sink):
         except Exception:
             continue
         for c in cs:
-            sink.fast({'fmt': fmt, 'doc': doc, 'ascii': True, 'corruption': c, 'position': i % 2})
+            sink.fast({'fmt': fmt, 'doc': doc, 'ascii': True, 'corruption': c, 'position': i % 2, 'opts': OPTS[(i // 2) % len(OPTS)]})
             i += 1
 
 
@@ -206,7 +209,7 @@ def check(case):
     pg, pbad = cli.write_file(good, ext, name='good'), cli.write_file(bad, ext, name='corrupt')
     try:
         pair = [pbad, pg] if case.get('position', 0) == 0 else [pg, pbad]
-        r = cli.run_main(pair + ['--no-status', '--no-color'])
+        r = cli.run_main(pair + case.get('opts', '--no-status').split() + ['--no-color'])
     finally:
         cli.cleanup_files(pg, pbad)
     what = f"{fmt} {case['corruption']} as {'first' if case.get('position', 0) == 0 else 'second'} file; corrupt bytes {bad[:80]!r}"
